@@ -64,16 +64,13 @@ func (core *JApiCore) next(lexeme scanner.Lexeme) *jerr.JApiError {
 		return core.processParameter(lexeme)
 
 	case scanner.Annotation:
-		core.processAnnotation(lexeme)
-		return nil
+		return core.processAnnotation(lexeme)
 
 	case scanner.Schema, scanner.Text, scanner.Json, scanner.Enum:
-		core.processBody(lexeme)
-		return nil
+		return core.processBody(lexeme)
 
 	case scanner.ContextExplicitOpening:
-		core.processContextBegin()
-		return nil
+		return core.processContextBegin(lexeme)
 
 	case scanner.ContextExplicitClosing:
 		return core.processContextEnd()
@@ -101,22 +98,44 @@ func (core *JApiCore) processKeyword(lexeme scanner.Lexeme) *jerr.JApiError {
 }
 
 func (core *JApiCore) processParameter(lexeme scanner.Lexeme) *jerr.JApiError {
+	if core.currentDirective == nil {
+		return core.noDirectiveError(lexeme)
+	}
 	if err := core.currentDirective.AppendParameter(lexeme.Value()); err != nil {
 		return core.japiError(err.Error(), lexeme.Begin())
 	}
 	return nil
 }
 
-func (core *JApiCore) processAnnotation(lexeme scanner.Lexeme) {
+func (core *JApiCore) processAnnotation(lexeme scanner.Lexeme) *jerr.JApiError {
+	if core.currentDirective == nil {
+		return core.noDirectiveError(lexeme)
+	}
 	core.currentDirective.Annotation = catalog.Annotation(lexeme.Value().String())
+	return nil
 }
 
-func (core *JApiCore) processBody(lexeme scanner.Lexeme) {
+func (core *JApiCore) processBody(lexeme scanner.Lexeme) *jerr.JApiError {
+	if core.currentDirective == nil {
+		return core.noDirectiveError(lexeme)
+	}
 	core.currentDirective.BodyCoords = coordsFromLexeme(lexeme)
+	return nil
 }
 
-func (core *JApiCore) processContextBegin() {
+func (core *JApiCore) processContextBegin(lexeme scanner.Lexeme) *jerr.JApiError {
+	if core.currentDirective == nil {
+		return core.noDirectiveError(lexeme)
+	}
 	core.currentDirective.HasExplicitContext = true
+	return nil
+}
+
+// noDirectiveError reports a parameter, annotation, body or opening parenthesis
+// that does not belong to any directive, e.g. at the very beginning of a file or
+// right after the file name of an INCLUDE directive.
+func (core *JApiCore) noDirectiveError(lexeme scanner.Lexeme) *jerr.JApiError {
+	return core.japiError(jerr.LexemeWithoutDirective, lexeme.Begin())
 }
 
 func (core *JApiCore) closeLastExplicitContext() *jerr.JApiError {
